@@ -21,6 +21,8 @@ qkey nondet_qkey(void);
 qstr g_e, g_o; qkey g_k, g_s;
 /* own address: client()->configuration().jid() / jidBare() are pure getters (ASSUMED), jidBare() = bare part of jid() */
 qstr gh_own_jid, gh_own_bare;
+/* the trust level stored for the key that sent the trust message under consideration: (encryption, bare JID of the sender, sender key) */
+int gh_sender_tl;
 #define BARE(x) ((x) == 0 ? 0 : __CPROVER_uninterpreted_jid_bare(x))
 #define IFF(a, b) ((!(a) || (b)) && (!(b) || (a)))
 
